@@ -79,7 +79,7 @@ def run(chk):
     # the whole 256-colour palette and the direct codes, 16 per run, then the fault family: a three-run buffer in one call with
     # the console failing or short at a later run x {write, write_all, write!} (faults argument 2)
     p = os.path.join(wd, "lc-pal.ndjson")
-    out = run_vw(vw, ["record", chk.seed, 17 + 36 + 4, 300, p, 2])
+    out = run_vw(vw, ["record", chk.seed, 17 + 42 + 4, 300, p, 2])
     jobs.append((p, json.loads(out.strip().split("\n")[-1])["summary"]))
 
     def val(j):
